@@ -26,7 +26,7 @@ ROWS = [
 ]
 # a large-integer column (identifiers, nanosecond counters): three of them no longer fit an int64 sum
 for _k, _r in enumerate(ROWS):
-    _r["L"] = 4 * 10 ** 18 + 1024 * _k
+    _r["L"] = 4 * 10 ** 18 + 4096 * _k  # (multiples of 4096: every sum of up to four of them is a float, in any order)
 
 FEATURES = ["x", "i", "b", "t", "x:i", "i:b", "b:x", "t:x", "x:b", "i:x", "t:x:b", "x:i:b", "t:i:x", "t:i", "b:i"]
 
